@@ -43,7 +43,8 @@ TRUSTED = [
     "the harness feeds the recorded pairings and checks them for validity",
     "item hashes are hash_pure (Hash/HashModel.v, tied to deephash.py by C06/C07's correspondence); the shared `hashes` memo table is not threaded "
     "through the model: inputs with ==-aliasing atoms (1 / 1.0 / True) are outside the correspondence and covered by the direct oracle (known finding)",
-    "Section hypotheses C06 (eqv -> equal hash) and C07 (equal hash -> eqv under tag_safe) are discharged by Hash/HashProofs when available (see level_note)",
+    "hypotheses on the hasher H (outputs non-empty and free of , ; : | { }; injective) stand for SHA-256 hexdigest being collision-free: premises of "
+    "C05_verdict_partial / C05_knob_independence / C05_different_hash_nonempty, not axioms; satisfiable (unary_hash, proved); C05_equal_gives_empty needs none",
     "max_diffs, custom operators, exclude/include paths, numpy, custom objects, cyclic/shared containers are outside the model",
 ]
 ASSUMPTIONS = ["tree-shaped inputs: no mutable object occurs at two positions", "no nan/inf/-0.0", "0 <= threshold_to_diff_deeper <= 1"]
@@ -657,9 +658,9 @@ def replay_witnesses(ctx):
 def run(ctx):
     rng = ctx.rng
     sys.setrecursionlimit(10000)
-    n_full = 160 if ctx.thorough else 36
-    n_grid = 60 if ctx.thorough else 8
-    n_rand = 1500 if ctx.thorough else 220
+    n_full = 160 if ctx.thorough else 28
+    n_grid = 60 if ctx.thorough else 6
+    n_rand = 1500 if ctx.thorough else 180
     replay_witnesses(ctx)
     gen = []
     while len(gen) < n_full + n_rand:
